@@ -271,7 +271,7 @@ impl Tracer {
                     origin: origin.clone(),
                     line_content: last_line.to_string(),
                     line_number: last_non_empty_line.0 + 1,
-                    index: last_line.len(),
+                    index: last_line.chars().count(),
                     value: " ".to_string(),
                     token: None,
                 }
